@@ -31,6 +31,9 @@ CLAIMS = {
  "C14": ("abstract interpretation (per-leading-index result == single-image operation) + AST call-graph rule for cross-batch collectives",
          "Decides for 0-3 leading axes and D=1..3 that times_group_element, norm, average_pool, to_images and (batch_)get_component give at each leading index exactly the single-image operation on that image, and that no jax.lax collective or named batch axis is used by layers/models except BatchNorm under its use_batch_norm guard.",
          "Trusted: jax.vmap applies its function independently per entry (so per-entry independence of vmapped models reduces to the absence of collectives); BatchNorm is cross-batch by design.", "3/C14"),
+ "C19": ("control-flow path enumeration of the stop methods normalised to roles and compared with the stated transition function + KIND (isinstance class-table evaluation of early-exit guards) + AST role rules on train()",
+         "Decides the patience-based conditions as a transition function (strict `loss < best - min_delta` on the monitored argument; on improvement best:=loss, best_model:=model, counter:=0; otherwise counter+=1 only; result counter>patience) and EpochStop (best_model:=model on every path, result epoch>=epochs); since every history is a sequence of such transitions the all-histories quantifier is discharged by induction, with no length bound. KIND decides that no early-exit guard diverts a Python float, NumPy float32/float64 scalar or JAX scalar. train(): roles of the stop() arguments, one epoch increment per iteration, returns stop_condition.best_model.",
+         "Trusted: real-number semantics of < on losses (NaN not considered); float()/item() preserve the value; the isinstance class table (float ⊇ {Python float, np.float64}, np.floating ⊇ NumPy float scalars, jax.Array ⊇ JAX scalars). Real training runs are not executed.", "3/C19"),
 }
 
 NA_REASON = "check not built yet in this session (build in progress); see DESIGN.md section 3 for the planned static rule"
